@@ -198,6 +198,9 @@ pub fn c02(out: &mut Out, tier: &str, rng: &mut Rng) {
     sampled_trees::<M5>(out, tier, rng, &allow_all, -25.0, 25.0);
     sampled_trees::<M8>(out, tier, rng, &allow_all, -24.0, 24.0);
     sampled_trees::<M10>(out, tier, rng, &allow_all, -20.0, 20.0);
+    sampled_trees::<M7>(out, tier, rng, &allow_all, -25.0, 25.0);
+    sampled_trees::<M9>(out, tier, rng, &allow_all, -22.0, 22.0);
+    sampled_trees::<M12>(out, tier, rng, &allow_all, -16.0, 16.0);
 }
 
 const C03_FAMS: &[&str] = &["normal", "uniform", "exp_pos", "exp_neg", "bimodal", "outlier", "two_point", "arith", "heavy", "ties"];
@@ -286,6 +289,9 @@ pub fn c04(out: &mut Out, tier: &str, rng: &mut Rng) {
     c04_for::<M6>(out, tier, rng);
     c04_for::<M8>(out, tier, rng);
     c04_for::<M10>(out, tier, rng);
+    c04_for::<M7>(out, tier, rng);
+    c04_for::<M9>(out, tier, rng);
+    c04_for::<M12>(out, tier, rng);
     polled_suite::<average::Moments4>(out, tier, rng, &allow_all);
     polled_suite::<M6>(out, tier, rng, &allow_all);
     for (d, x) in HUGE_BASES {
@@ -348,6 +354,19 @@ pub fn c10(out: &mut Out, tier: &str, rng: &mut Rng) {
                     }
                 }
             }
+        }
+    }
+    // the same statistics after merges: every chunking and tree of short sequences (chunks of one or two
+    // observations and symmetric chunks have third moments of exactly zero), the special chunkings
+    {
+        let (max_n, max_k) = if tier == "thorough" { (6, 4) } else { (5, 3) };
+        exhaustive_trees::<average::Moments4>(out, ALPHABET, max_n, max_k, rng, &allow);
+        exhaustive_trees::<M5>(out, &[0.0, 4.0, 8.0, 1.0, 9.0, 2.5, -3.0, 13.0], max_n, max_k, rng, &allow);
+        exhaustive_trees::<average::Kurtosis>(out, &[0.0, 1.0, 10.0, 13.0, 4.0, 9.0, 2.5], max_n.min(5), max_k, rng, &allow);
+        for t in special_trees() {
+            merged::<average::Variance>(out, &t, Trace::None, rng, &allow);
+            merged::<average::Moments4>(out, &t, Trace::None, rng, &allow);
+            merged::<M6>(out, &t, Trace::None, rng, &allow);
         }
     }
     polled_suite::<average::Variance>(out, tier, rng, &allow);
